@@ -153,6 +153,17 @@ def run(ctx):
         ctx.case(dict(kind="sampled:" + s["kind"], n=s["n"], m=s["m"], spec=out[s["sid"]]), nontrivial=True)
         judge(ctx, s["kind"], s["n"], s["m"], out[s["sid"]], dict(kind="sampled", session=s, spec=out[s["sid"]]))
         ctx.traces += 1
+    # self-test of the specification's arbitrary-precision arithmetic against TLC's own integers (Base = 10: every carry path)
+    import os, tempfile, shutil
+    d = tempfile.mkdtemp(prefix="pvcfg_")
+    try:
+        p = os.path.join(d, "MCBigInt.cfg")
+        with open(p, "w") as f:
+            f.write(f"SPECIFICATION Spec\nCONSTANTS\n  MaxAbs = {30 if q else 130}\n" + "".join(
+                f"INVARIANT {i}\n" for i in ("AddOK", "SubOK", "MulOK", "CmpOK", "RoundTrip", "QAddOK", "QSubOK", "QMulOK", "QCmpOK")))
+        ctx.mc("MCBigInt", p, workers=8)
+    finally:
+        shutil.rmtree(d, ignore_errors=True)
     # realistic sample sizes (10^4 .. 10^7 sequences): products such as N(N-1)(N-2)(N-3) leave 32 and then 64 bits; the
     # specification evaluates the same closed forms in arbitrary precision (BigInt.tla; BigAgrees ties them to the forms above)
     big = []
